@@ -1,5 +1,6 @@
 import Reclass.Props.C13
 import Reclass.Props.C13c
+import Reclass.Props.C13d
 open Reclass
 #print axioms Reclass.C13.fails_iff_some_node_fails
 #print axioms Reclass.C13.error_names_failing_node
@@ -35,3 +36,7 @@ open Reclass
 #print axioms Reclass.C13.adding_node_keeps_members
 #print axioms Reclass.C13.adding_tilde_node_keeps_plain
 #print axioms Reclass.C13.adding_node_entry_perm
+#print axioms Reclass.C13d.collect_apps_indep
+#print axioms Reclass.C13d.apps_index_independent_of_class_lists
+#print axioms Reclass.C13d.collect_classes_indep
+#print axioms Reclass.C13d.class_index_independent_of_app_lists
